@@ -364,25 +364,74 @@ func (se *symEval) objectState(obj ssa.Value, at ssa.Instruction, depth int) (ob
 	if !ok {
 		return nil, false
 	}
-	// apply stores in se.f whose address roots at obj
+	// apply stores in se.f whose address roots at obj — and the stores a module helper performs through a
+	// pointer into obj that it is handed (mirrorIdentifiers(nm.Header, req))
 	type upd struct {
 		path string
-		st   *ssa.Store
+		st   ssa.Instruction // the store, or the call of the helper that stores
+		val  ssa.Value       // stored value (direct stores)
+		hval *sx             // value expressed in the caller (helper stores)
+		cond bool            // helper store that does not happen on every path of the helper
 	}
 	var ups []upd
 	flow.Instrs(se.f, func(in ssa.Instruction) {
-		st, ok := in.(*ssa.Store)
-		if !ok {
-			return
+		switch x := in.(type) {
+		case *ssa.Store:
+			root, fields, ok := fieldPathThrough(x.Addr, obj)
+			if !ok || root != obj {
+				return
+			}
+			ups = append(ups, upd{path: strings.Join(fields, "."), st: x, val: x.Val})
+		case *ssa.Call:
+			h := flow.StaticCallee(x)
+			if h == nil || h.Blocks == nil || !se.c.P.InModule(pkgOf(h)) || depth <= 0 {
+				return
+			}
+			for ai, a := range x.Call.Args {
+				if ai >= len(h.Params) {
+					continue
+				}
+				// the argument: obj itself, or a pointer stored in one of its fields
+				var prefix []string
+				switch {
+				case flow.Peel(a) == obj:
+				default:
+					u, isLoad := a.(*ssa.UnOp)
+					if !isLoad || u.Op != token.MUL {
+						continue
+					}
+					root, fields, ok := fieldPathThrough(u.X, obj)
+					if !ok || root != obj {
+						continue
+					}
+					prefix = fields
+				}
+				if _, isPtr := h.Params[ai].Type().Underlying().(*types.Pointer); !isPtr {
+					continue
+				}
+				hp := h.Params[ai]
+				var args []*sx
+				for _, aa := range x.Call.Args {
+					args = append(args, se.eval(aa))
+				}
+				hse := se.c.newSymEval(h, depth-1)
+				flow.Instrs(h, func(hin ssa.Instruction) {
+					st, ok := hin.(*ssa.Store)
+					if !ok {
+						return
+					}
+					root, fields, ok := fieldPathThrough(st.Addr, hp)
+					if !ok || root != ssa.Value(hp) {
+						return
+					}
+					path := strings.Join(append(append([]string{}, prefix...), fields...), ".")
+					ups = append(ups, upd{path: path, st: x, hval: substitute(hse.eval(st.Val), args), cond: !dominatesAllReturns(h, st)})
+				})
+			}
 		}
-		root, fields, ok := fieldPathThrough(st.Addr, obj)
-		if !ok || root != obj {
-			return
-		}
-		ups = append(ups, upd{strings.Join(fields, "."), st})
 	})
 	// order by dominance (program order within straight-line code)
-	sort.SliceStable(ups, func(i, j int) bool { return flow.Dominates(ups[i].st, ups[j].st) })
+	sort.SliceStable(ups, func(i, j int) bool { return ups[i].st != ups[j].st && flow.Dominates(ups[i].st, ups[j].st) })
 	saveObj, saveSum := se.selfObj, se.selfSum
 	se.selfObj, se.selfSum = obj, sum
 	defer func() { se.selfObj, se.selfSum = saveObj, saveSum }()
@@ -391,18 +440,24 @@ func (se *symEval) objectState(obj ssa.Value, at ssa.Instruction, depth int) (ob
 		if old == nil {
 			old = sxConst("zero")
 		}
+		value := func() *sx {
+			if u.hval != nil {
+				return u.hval
+			}
+			return se.valueOrNested(u.val, depth, sum, u.path)
+		}
 		if at != nil && !flow.Dominates(u.st, at) {
 			// may or may not have happened / happens later
 			if reaches(se.f, u.st, at) {
-				sum[u.path] = sxPhi(old, se.valueOrNested(u.st.Val, depth, sum, u.path))
+				sum[u.path] = sxPhi(old, value())
 			}
 			continue
 		}
-		if at == nil && !dominatesAllReturns(se.f, u.st) {
-			sum[u.path] = sxPhi(old, se.valueOrNested(u.st.Val, depth, sum, u.path))
+		if (at == nil && !dominatesAllReturns(se.f, u.st)) || u.cond {
+			sum[u.path] = sxPhi(old, value())
 			continue
 		}
-		sum[u.path] = se.valueOrNested(u.st.Val, depth, sum, u.path)
+		sum[u.path] = value()
 	}
 	return sum, true
 }
